@@ -473,9 +473,10 @@ var (
 
 // single-unit and multi-unit characters per reference coding
 var singles = map[ref.TextKind][]rune{
-	ref.KASCII:       []rune("abcXYZ019 .,!@$"),
-	ref.KLatin1:      []rune("abcXYZ019 éÿÀñ£"),
-	ref.KUCS2:        []rune("a中文é€Ω日本語字"),
+	ref.KASCII:  []rune("abcXYZ019 .,!@$"),
+	ref.KLatin1: []rune("abcXYZ019 éÿÀñ£"),
+	// includes code units whose octets look like specials of other codings (0x1B low octet, GB18030 lead / digit octets, 0xD8 low octet)
+	ref.KUCS2:        []rune("a中文é€Ω日本語字\u011b\u4e1b\u1b1b\u30d8\u8130\u001b"),
 	ref.KGB18030:     []rune("abc123 XYZ"),
 	ref.KGSMUnpacked: []rune("abcXYZ019 @£$ΔΩèà\r\n"),
 	ref.KGSMPacked:   []rune("abcXYZ019 @£$ΔΩèà\r\n"),
@@ -635,17 +636,30 @@ func GridCases() []Case {
 						if pos%fw != 0 {
 							continue
 						}
-						var rs []rune
-						for i := 0; i < pos/fw; i++ {
-							rs = append(rs, fill)
+						// prefixes whose UTF-8 length differs from their unit count in the other direction than
+						// an ASCII escape's does, so that texts exist whose byte length equals (or is below / above)
+						// their unit count although they contain multi-unit characters
+						prefixes := []string{""}
+						if k.IsGSM() && extra == 0 {
+							prefixes = []string{"", "é", "€", "éé", "€é"}
 						}
-						rs = append(rs, m)
-						total := kk*per + extra
-						for u := pos + w; u < total; u += fw {
-							rs = append(rs, singles[k][1])
+						for _, pre := range prefixes {
+							pu, _, perr := ref.Units(k, pre)
+							if perr != nil || len(pu) > pos {
+								continue
+							}
+							rs := []rune(pre)
+							for i := 0; i < (pos-len(pu))/fw; i++ {
+								rs = append(rs, fill)
+							}
+							rs = append(rs, m)
+							total := kk*per + extra
+							for u := pos + w; u < total; u += fw {
+								rs = append(rs, singles[k][1])
+							}
+							out = append(out, Case{Proto: x.proto, Coding: x.coding, Ref: byte(kk*16 + d + 8), Text: vk.Hex([]byte(string(rs))),
+								Note: fmt.Sprintf("grid %v U+%04X k=%d offset=%d extra=%d prefix=%q", k, m, kk, d, extra, pre)})
 						}
-						out = append(out, Case{Proto: x.proto, Coding: x.coding, Ref: byte(kk*16 + d + 8), Text: vk.Hex([]byte(string(rs))),
-							Note: fmt.Sprintf("grid %v U+%04X k=%d offset=%d extra=%d", k, m, kk, d, extra)})
 					}
 				}
 			}
